@@ -94,7 +94,15 @@ def rand_tracks(rng, skip_checks):
             msgs = msgs + [msgs[rng.randrange(len(msgs))] for _ in range(rng.randrange(1, 4))]
             if rng.random() < 0.3:
                 msgs = msgs * 2
+        if rng.random() < 0.1:
+            from mido.frozen import freeze_message
+            msgs = [freeze_message(m) if rng.random() < 0.6 else m for m in msgs]
         tracks.append(MidiTrack(msgs) if rng.random() < 0.8 else list(msgs))
+    if tracks and rng.random() < 0.2:
+        # a doubled part: the same track object twice, or an equal copy of it
+        i = rng.randrange(len(tracks))
+        twin = tracks[i] if rng.random() < 0.5 else type(tracks[i])(m.copy() for m in tracks[i])
+        tracks.insert(rng.randrange(len(tracks) + 1), twin)
     return tracks
 
 
@@ -165,7 +173,13 @@ def edit(rng, tracks):
     r = rng.random()
     i = rng.randrange(len(tr))
     if r < 0.35:
-        tr[i].time = tr[i].time + rng.choice((1, 7, 100))
+        try:
+            tr[i].time = tr[i].time + rng.choice((1, 7, 100))
+        except ValueError:                       # a frozen message: replace it by a thawed, shifted one
+            from mido.frozen import thaw_message
+            m = thaw_message(tr[i])
+            m.time = m.time + 3
+            tr[i] = m
         return 'delta'
     if r < 0.55:
         tr[i] = Message('program_change', program=rng.randrange(128), time=rng.choice((0, 2, 50)))
@@ -212,7 +226,7 @@ def merge_case(ctx, seed):
             try:
                 m.time = m.time + 480
             except Exception:
-                pass
+                pass                                  # a frozen message in the result
         if len(out):
             out.pop()
         judge_merge(ctx, tracks, skip, lambda: {'kind': 'merge', 'seed': seed, 'after': 'result edited'}, via,
@@ -239,6 +253,9 @@ HAND = [
     [[Message('note_on', note=1, time=0)], [Message('note_on', note=2, time=0)],
      [Message('note_on', note=3, time=0)]],
     [[MetaMessage('end_of_track', time=4), MetaMessage('end_of_track', time=4)]],
+    # two equal tracks holding a chord: ties stay in track order, then in-track order
+    [[Message('note_on', note=60, time=5), Message('note_on', note=64, time=0), Message('note_off', note=60, time=0)],
+     [Message('note_on', note=60, time=5), Message('note_on', note=64, time=0), Message('note_off', note=60, time=0)]],
 ]
 
 
